@@ -597,6 +597,8 @@ Require Verif.Tie.E2E.VersNpm.
 Require Verif.Tie.E2E.VersNuget.
 Require Verif.Tie.E2E.VersPypi.
 Require Verif.Tie.E2E.VersRpm.
+Require Verif.Tie.Extra.Alpm.
+Require Verif.Tie.Extra.Npm.
 Definition C06_tie_loops_alpine_hasLeadingZero_no_panic := @Verif.Tie.Loops.Alpine.loops_alpine_hasLeadingZero_no_panic.
 Definition C06_tie_loops_alpine_compareNumericArraysNumeric_no_panic := @Verif.Tie.Loops.Alpine.loops_alpine_compareNumericArraysNumeric_no_panic.
 Definition C06_tie_loops_alpine_compareSuffixArrays_no_panic := @Verif.Tie.Loops.Alpine.loops_alpine_compareSuffixArrays_no_panic.
@@ -941,6 +943,12 @@ Definition C06_tie_vers_pypi_e2e := @Verif.Tie.E2E.VersPypi.vers_pypi_e2e.
 Definition C06_tie_rpm_contains_e2e := @Verif.Tie.E2E.VersRpm.rpm_contains_e2e.
 Definition C06_tie_rpmContains_e2e := @Verif.Tie.E2E.VersRpm.rpmContains_e2e.
 Definition C06_tie_vers_rpm_e2e := @Verif.Tie.E2E.VersRpm.vers_rpm_e2e.
-Definition C06_ties_all := (C06_tie_Contains_no_panic, (C06_tie_Contains_tie, (C06_tie_alpineContains_e2e, (C06_tie_alpine_cli_e2e, (C06_tie_alpine_cli_e2e_exit, (C06_tie_alpine_contains_e2e, (C06_tie_alpine_lib_ties, (C06_tie_alpine_lib_ties_on, (C06_tie_alpine_name_ok, (C06_tie_alpine_printer_tie, (C06_tie_alpine_runEcosystem_e2e, (C06_tie_alpm_cli_e2e, (C06_tie_alpm_cli_e2e_exit, (C06_tie_alpm_lib_ties, (C06_tie_alpm_lib_ties_on, (C06_tie_alpm_name_ok, (C06_tie_alpm_runEcosystem_e2e, (C06_tie_alternatingIntervals_no_panic, (C06_tie_alternatingIntervals_tie, (C06_tie_alternatingIntervals_tie_finished, (C06_tie_alternatingIntervals_total, (C06_tie_apache_cli_e2e, (C06_tie_apache_cli_e2e_exit, (C06_tie_apache_lib_ties, (C06_tie_apache_lib_ties_on, (C06_tie_apache_name_ok, (C06_tie_apache_runEcosystem_e2e, (C06_tie_cargoContains_e2e, (C06_tie_cargo_cli_e2e, (C06_tie_cargo_cli_e2e_exit, (C06_tie_cargo_contains_e2e, (C06_tie_cargo_lib_ties, (C06_tie_cargo_lib_ties_on, (C06_tie_cargo_name_ok, (C06_tie_cargo_printer_tie, (C06_tie_cargo_runEcosystem_e2e, (C06_tie_ccmp_le_total, (C06_tie_collect_tie, (C06_tie_compare_no_panic, (C06_tie_composer_cli_e2e, (C06_tie_composer_cli_e2e_exit, (C06_tie_composer_lib_ties, (C06_tie_composer_lib_ties_on, (C06_tie_composer_name_ok, (C06_tie_composer_runEcosystem_e2e, (C06_tie_conan_cli_e2e, (C06_tie_conan_cli_e2e_exit, (C06_tie_conan_lib_ties, (C06_tie_conan_lib_ties_on, (C06_tie_conan_name_ok, (C06_tie_conan_runEcosystem_e2e, (C06_tie_constraintsIncludePrerelease_finished, (C06_tie_constraintsIncludePrerelease_tie, (C06_tie_containsPrereleaseMarkers_finished, (C06_tie_containsPrereleaseMarkers_tie, (C06_tie_contains_no_panic, (C06_tie_contains_tie, (C06_tie_cran_cli_e2e, (C06_tie_cran_cli_e2e_exit, (C06_tie_cran_lib_ties, (C06_tie_cran_lib_ties_on, (C06_tie_cran_name_ok, (C06_tie_cran_runEcosystem_e2e, (C06_tie_debianContains_e2e, (C06_tie_debian_cli_e2e, (C06_tie_debian_cli_e2e_exit, (C06_tie_debian_contains_e2e, (C06_tie_debian_lib_ties, (C06_tie_debian_lib_ties_on, (C06_tie_debian_name_ok, (C06_tie_debian_printer_tie, (C06_tie_debian_runEcosystem_e2e, (C06_tie_ensureVPrefix_tie, (C06_tie_ensures_finished, (C06_tie_gemContains_e2e, (C06_tie_gem_cli_e2e, (C06_tie_gem_cli_e2e_exit, (C06_tie_gem_contains_e2e, (C06_tie_gem_lib_ties, (C06_tie_gem_lib_ties_on, (C06_tie_gem_lib_ties_on_short_false, (C06_tie_gem_name_ok, (C06_tie_gem_printer_tie, (C06_tie_gem_runEcosystem_e2e, (C06_tie_gentoo_cli_e2e, (C06_tie_gentoo_cli_e2e_exit, (C06_tie_gentoo_compare, (C06_tie_gentoo_lib_ties, (C06_tie_gentoo_lib_ties_on, (C06_tie_gentoo_name_ok, (C06_tie_gentoo_runEcosystem_e2e, (C06_tie_github_cli_e2e, (C06_tie_github_cli_e2e_exit, (C06_tie_github_lib_ties, (C06_tie_github_lib_ties_on, (C06_tie_github_name_ok, (C06_tie_github_runEcosystem_e2e, (C06_tie_golangContains_e2e, (C06_tie_golang_cli_e2e, (C06_tie_golang_cli_e2e_exit, (C06_tie_golang_contains_e2e, (C06_tie_golang_lib_ties, (C06_tie_golang_lib_ties_on, (C06_tie_golang_name_ok, (C06_tie_golang_printer_tie, (C06_tie_golang_runEcosystem_e2e, (C06_tie_groupConstraintsIntoIntervals_no_panic, (C06_tie_groupConstraintsIntoIntervals_tie, (C06_tie_groupConstraintsIntoIntervals_tie_finished, (C06_tie_groupConstraintsIntoIntervals_total, (C06_tie_hex_cli_e2e, (C06_tie_hex_cli_e2e_exit, (C06_tie_hex_lib_ties, (C06_tie_hex_lib_ties_on, (C06_tie_hex_name_ok, (C06_tie_hex_runEcosystem_e2e, (C06_tie_isPyPIPrerelease_tie, (C06_tie_lazy_lib_ties_on, (C06_tie_loops_alpine_compareNumericArraysNumeric_no_panic, (C06_tie_loops_alpine_compareSuffixArrays_no_panic, (C06_tie_loops_alpine_hasLeadingZero_no_panic, (C06_tie_loops_alpm_compareSegmentBySegment_no_panic, (C06_tie_loops_alpm_compareSegments_no_panic, (C06_tie_loops_alpm_isAlphaSegment_no_panic, (C06_tie_loops_cargo_comparePrereleaseIdentifiers_no_panic, (C06_tie_loops_conan_caretMatch_no_panic, (C06_tie_loops_conan_comparePrerelease_no_panic, (C06_tie_loops_conan_compareVersionParts_no_panic, (C06_tie_loops_conan_naturalCompare_no_panic, (C06_tie_loops_conan_tildeMatch_no_panic, (C06_tie_loops_cran_compare_no_panic, (C06_tie_loops_debian_no_panic, (C06_tie_loops_gem_compareSegmentArrays_no_panic, (C06_tie_loops_gem_compare_no_panic, (C06_tie_loops_gem_removeTrailingZeros_no_panic, (C06_tie_loops_gem_split_no_panic, (C06_tie_loops_golang_comparePrerelease_no_panic, (C06_tie_loops_hex_comparePreRelease_no_panic, (C06_tie_loops_maven_trimTrailingNulls_no_panic, (C06_tie_loops_npm_comparePrerelease_no_panic, (C06_tie_loops_nuget_comparePrerelease_no_panic, (C06_tie_loops_pypi_compareReleaseVersions_no_panic, (C06_tie_loops_rpm_compareRPMVersionString_no_panic, (C06_tie_loops_semver_comparePrerelease_no_panic, (C06_tie_mattermost_cli_e2e, (C06_tie_mattermost_cli_e2e_exit, (C06_tie_mattermost_lib_ties, (C06_tie_mattermost_lib_ties_on, (C06_tie_mattermost_name_ok, (C06_tie_mattermost_runEcosystem_e2e, (C06_tie_mavenContains_e2e, (C06_tie_maven_cli_e2e, (C06_tie_maven_cli_e2e_exit, (C06_tie_maven_contains_e2e, (C06_tie_maven_lib_ties, (C06_tie_maven_lib_ties_on, (C06_tie_maven_name_ok, (C06_tie_maven_printer_tie, (C06_tie_maven_runEcosystem_e2e, (C06_tie_newversion_alpm_no_panic, (C06_tie_newversion_apache_no_panic, (C06_tie_newversion_cargo_no_panic, (C06_tie_newversion_conan_no_panic, (C06_tie_newversion_debian_no_panic, (C06_tie_newversion_gem_no_panic, (C06_tie_newversion_gentoo_no_panic, (C06_tie_newversion_github_no_panic, (C06_tie_newversion_hex_no_panic, (C06_tie_newversion_matched, (C06_tie_newversion_mattermost_no_panic, (C06_tie_newversion_maven_no_panic, (C06_tie_newversion_npm_no_panic, (C06_tie_newversion_nuget_no_panic, (C06_tie_newversion_rpm_no_panic, (C06_tie_newversion_semver_no_panic, (C06_tie_newversion_unmatched, (C06_tie_newversionrange_debian_no_panic_closed, (C06_tie_newversionrange_gentoo_no_panic_closed, (C06_tie_newversionrange_npm_no_panic_closed, (C06_tie_newversionrange_nuget_no_panic_closed, (C06_tie_newversionrange_rpm_no_panic_closed, (C06_tie_normalizeConstraints_no_panic, (C06_tie_normalizeConstraints_tie, (C06_tie_normalize_go_tie, (C06_tie_npmContains_e2e, (C06_tie_npm_cli_e2e, (C06_tie_npm_cli_e2e_exit, (C06_tie_npm_compare_sort_e2e, (C06_tie_npm_contains_e2e, (C06_tie_npm_lib_ties, (C06_tie_npm_lib_ties_on, (C06_tie_npm_name_ok, (C06_tie_npm_printer_tie, (C06_tie_npm_runEcosystem_e2e, (C06_tie_npm_version_lib_ties_on, (C06_tie_nugetContains_e2e, (C06_tie_nuget_cli_e2e, (C06_tie_nuget_cli_e2e_exit, (C06_tie_nuget_contains_e2e, (C06_tie_nuget_lib_ties, (C06_tie_nuget_lib_ties_on, (C06_tie_nuget_name_ok, (C06_tie_nuget_printer_tie, (C06_tie_nuget_runEcosystem_e2e, (C06_tie_parseConstraint_finished, (C06_tie_parseConstraint_tie, (C06_tie_parseConstraints_finished, (C06_tie_parseConstraints_normalize, (C06_tie_parseConstraints_tie, (C06_tie_parse_alpine_newversionrange, (C06_tie_parse_alpine_parseConstraint, (C06_tie_parse_alpine_parseConstraints, (C06_tie_parse_alpm_newversion, (C06_tie_parse_alpm_newversionrange, (C06_tie_parse_alpm_newversionrange_model, (C06_tie_parse_alpm_parseConstraint, (C06_tie_parse_alpm_parseConstraints, (C06_tie_parse_apache_newversion, (C06_tie_parse_apache_newversionrange, (C06_tie_parse_apache_parseConstraint, (C06_tie_parse_apache_parseConstraints, (C06_tie_parse_cargo_newversion, (C06_tie_parse_cargo_newversionrange, (C06_tie_parse_cargo_newversionrange_nv, (C06_tie_parse_cargo_parseConstraint, (C06_tie_parse_cargo_parseConstraints, (C06_tie_parse_composer_newversionrange, (C06_tie_parse_composer_parseHyphenRange, (C06_tie_parse_composer_parseRange, (C06_tie_parse_composer_parseRangeGroups, (C06_tie_parse_composer_space, (C06_tie_parse_conan_newversion, (C06_tie_parse_conan_newversionrange, (C06_tie_parse_cran_newversionrange, (C06_tie_parse_cran_parseConstraint, (C06_tie_parse_cran_parseConstraints, (C06_tie_parse_debian_newversion, (C06_tie_parse_debian_newversionrange, (C06_tie_parse_debian_newversionrange_closed, (C06_tie_parse_debian_parseConstraint, (C06_tie_parse_debian_parseConstraints, (C06_tie_parse_gem_newversion, (C06_tie_parse_gem_newversionrange, (C06_tie_parse_gem_newversionrange_core, (C06_tie_parse_gem_parseConstraint, (C06_tie_parse_gem_parseConstraints, (C06_tie_parse_gem_parseSegments, (C06_tie_parse_gentoo_newversion, (C06_tie_parse_gentoo_newversionrange, (C06_tie_parse_gentoo_newversionrange_closed, (C06_tie_parse_gentoo_parseRange, (C06_tie_parse_gentoo_parseSingleConstraint, (C06_tie_parse_github_newversion, (C06_tie_parse_github_newversionrange, (C06_tie_parse_github_newversionrange_model, (C06_tie_parse_github_parseConstraint, (C06_tie_parse_github_parseConstraints, (C06_tie_parse_golang_newversionrange, (C06_tie_parse_golang_parseGoRange, (C06_tie_parse_golang_parseSingleGoConstraint, (C06_tie_parse_hex_newversionrange, (C06_tie_parse_hex_parseConstraint, (C06_tie_parse_hex_parseConstraints, (C06_tie_parse_mattermost_newversionrange, (C06_tie_parse_mattermost_parseConstraint, (C06_tie_parse_mattermost_parseConstraints, (C06_tie_parse_maven_isValidMavenVersion, (C06_tie_parse_maven_newversion, (C06_tie_parse_maven_newversionrange, (C06_tie_parse_npm_newversion, (C06_tie_parse_nuget_newversion, (C06_tie_parse_pypi_newversionrange, (C06_tie_parse_pypi_parseSingleConstraint, (C06_tie_parse_rpm_newversion, (C06_tie_parse_rpm_newversionrange, (C06_tie_parse_rpm_newversionrange_closed, (C06_tie_parse_rpm_parseConstraint, (C06_tie_parse_rpm_parseConstraints, (C06_tie_parse_semver_comma, (C06_tie_parse_semver_newversion, (C06_tie_parse_semver_newversionrange, (C06_tie_parse_semver_space, (C06_tie_printers_keys, (C06_tie_printers_len, (C06_tie_printers_len', (C06_tie_printers_match_style_table, (C06_tie_printers_on_model_interval, (C06_tie_printers_texts, (C06_tie_printers_texts_normalize, (C06_tie_pypiContains_e2e, (C06_tie_pypiContains_tie, (C06_tie_pypi_cli_e2e, (C06_tie_pypi_cli_e2e_exit, (C06_tie_pypi_contains_e2e, (C06_tie_pypi_lib_ties, (C06_tie_pypi_lib_ties_on, (C06_tie_pypi_name_ok, (C06_tie_pypi_printer_tie, (C06_tie_pypi_runEcosystem_e2e, (C06_tie_rpmContains_e2e, (C06_tie_rpm_cli_e2e, (C06_tie_rpm_cli_e2e_exit, (C06_tie_rpm_contains_e2e, (C06_tie_rpm_lib_ties, (C06_tie_rpm_lib_ties_on, (C06_tie_rpm_name_ok, (C06_tie_rpm_printer_tie, (C06_tie_rpm_runEcosystem_e2e, (C06_tie_runEcosystem_no_panic, (C06_tie_runVers_no_panic, (C06_tie_run_no_panic, (C06_tie_run_src_no_panic, (C06_tie_scheme_finished, (C06_tie_scheme_tie, (C06_tie_semverContains_e2e, (C06_tie_semver_cli_e2e, (C06_tie_semver_cli_e2e_exit, (C06_tie_semver_compare_sort_e2e, (C06_tie_semver_contains_e2e, (C06_tie_semver_lib_ties, (C06_tie_semver_lib_ties_on, (C06_tie_semver_name_ok, (C06_tie_semver_printer_tie, (C06_tie_semver_runEcosystem_e2e, (C06_tie_semver_version_lib_ties_on, (C06_tie_shouldMergeConstraints_tie, (C06_tie_sort_no_panic, (C06_tie_toRanges_no_panic, (C06_tie_toRanges_normalize, (C06_tie_toRanges_tie, (C06_tie_valid_finished, (C06_tie_valid_tie, (C06_tie_versContains_no_panic, (C06_tie_vers_alpine_e2e, (C06_tie_vers_cargo_e2e, (C06_tie_vers_deb_e2e, (C06_tie_vers_gem_e2e, (C06_tie_vers_generic_e2e, (C06_tie_vers_golang_e2e, (C06_tie_vers_maven_e2e, (C06_tie_vers_npm_e2e, (C06_tie_vers_nuget_e2e, (C06_tie_vers_pypi_e2e, C06_tie_vers_rpm_e2e))))))))))))))))))))))))))))))))))))))))))))))))))))))))))))))))))))))))))))))))))))))))))))))))))))))))))))))))))))))))))))))))))))))))))))))))))))))))))))))))))))))))))))))))))))))))))))))))))))))))))))))))))))))))))))))))))))))))))))))))))))))))))))))))))))))))))))))))))))))))))))))))))))))))))))))))))))))))))))))))))))))))))))))))))))))).
+Definition C06_tie_compareALMPVersionString_alpm_no_panic := @Verif.Tie.Extra.Alpm.compareALMPVersionString_alpm_no_panic.
+Definition C06_tie_parse_npm_padPartial := @Verif.Tie.Extra.Npm.tie_parse_npm_padPartial.
+Definition C06_tie_parse_npm_parseCaretRange := @Verif.Tie.Extra.Npm.tie_parse_npm_parseCaretRange.
+Definition C06_tie_parse_npm_parseTildeRange := @Verif.Tie.Extra.Npm.tie_parse_npm_parseTildeRange.
+Definition C06_tie_parseCaretRange_npm_no_panic := @Verif.Tie.Extra.Npm.parseCaretRange_npm_no_panic.
+Definition C06_tie_parseTildeRange_npm_no_panic := @Verif.Tie.Extra.Npm.parseTildeRange_npm_no_panic.
+Definition C06_ties_all := (C06_tie_Contains_no_panic, (C06_tie_Contains_tie, (C06_tie_alpineContains_e2e, (C06_tie_alpine_cli_e2e, (C06_tie_alpine_cli_e2e_exit, (C06_tie_alpine_contains_e2e, (C06_tie_alpine_lib_ties, (C06_tie_alpine_lib_ties_on, (C06_tie_alpine_name_ok, (C06_tie_alpine_printer_tie, (C06_tie_alpine_runEcosystem_e2e, (C06_tie_alpm_cli_e2e, (C06_tie_alpm_cli_e2e_exit, (C06_tie_alpm_lib_ties, (C06_tie_alpm_lib_ties_on, (C06_tie_alpm_name_ok, (C06_tie_alpm_runEcosystem_e2e, (C06_tie_alternatingIntervals_no_panic, (C06_tie_alternatingIntervals_tie, (C06_tie_alternatingIntervals_tie_finished, (C06_tie_alternatingIntervals_total, (C06_tie_apache_cli_e2e, (C06_tie_apache_cli_e2e_exit, (C06_tie_apache_lib_ties, (C06_tie_apache_lib_ties_on, (C06_tie_apache_name_ok, (C06_tie_apache_runEcosystem_e2e, (C06_tie_cargoContains_e2e, (C06_tie_cargo_cli_e2e, (C06_tie_cargo_cli_e2e_exit, (C06_tie_cargo_contains_e2e, (C06_tie_cargo_lib_ties, (C06_tie_cargo_lib_ties_on, (C06_tie_cargo_name_ok, (C06_tie_cargo_printer_tie, (C06_tie_cargo_runEcosystem_e2e, (C06_tie_ccmp_le_total, (C06_tie_collect_tie, (C06_tie_compareALMPVersionString_alpm_no_panic, (C06_tie_compare_no_panic, (C06_tie_composer_cli_e2e, (C06_tie_composer_cli_e2e_exit, (C06_tie_composer_lib_ties, (C06_tie_composer_lib_ties_on, (C06_tie_composer_name_ok, (C06_tie_composer_runEcosystem_e2e, (C06_tie_conan_cli_e2e, (C06_tie_conan_cli_e2e_exit, (C06_tie_conan_lib_ties, (C06_tie_conan_lib_ties_on, (C06_tie_conan_name_ok, (C06_tie_conan_runEcosystem_e2e, (C06_tie_constraintsIncludePrerelease_finished, (C06_tie_constraintsIncludePrerelease_tie, (C06_tie_containsPrereleaseMarkers_finished, (C06_tie_containsPrereleaseMarkers_tie, (C06_tie_contains_no_panic, (C06_tie_contains_tie, (C06_tie_cran_cli_e2e, (C06_tie_cran_cli_e2e_exit, (C06_tie_cran_lib_ties, (C06_tie_cran_lib_ties_on, (C06_tie_cran_name_ok, (C06_tie_cran_runEcosystem_e2e, (C06_tie_debianContains_e2e, (C06_tie_debian_cli_e2e, (C06_tie_debian_cli_e2e_exit, (C06_tie_debian_contains_e2e, (C06_tie_debian_lib_ties, (C06_tie_debian_lib_ties_on, (C06_tie_debian_name_ok, (C06_tie_debian_printer_tie, (C06_tie_debian_runEcosystem_e2e, (C06_tie_ensureVPrefix_tie, (C06_tie_ensures_finished, (C06_tie_gemContains_e2e, (C06_tie_gem_cli_e2e, (C06_tie_gem_cli_e2e_exit, (C06_tie_gem_contains_e2e, (C06_tie_gem_lib_ties, (C06_tie_gem_lib_ties_on, (C06_tie_gem_lib_ties_on_short_false, (C06_tie_gem_name_ok, (C06_tie_gem_printer_tie, (C06_tie_gem_runEcosystem_e2e, (C06_tie_gentoo_cli_e2e, (C06_tie_gentoo_cli_e2e_exit, (C06_tie_gentoo_compare, (C06_tie_gentoo_lib_ties, (C06_tie_gentoo_lib_ties_on, (C06_tie_gentoo_name_ok, (C06_tie_gentoo_runEcosystem_e2e, (C06_tie_github_cli_e2e, (C06_tie_github_cli_e2e_exit, (C06_tie_github_lib_ties, (C06_tie_github_lib_ties_on, (C06_tie_github_name_ok, (C06_tie_github_runEcosystem_e2e, (C06_tie_golangContains_e2e, (C06_tie_golang_cli_e2e, (C06_tie_golang_cli_e2e_exit, (C06_tie_golang_contains_e2e, (C06_tie_golang_lib_ties, (C06_tie_golang_lib_ties_on, (C06_tie_golang_name_ok, (C06_tie_golang_printer_tie, (C06_tie_golang_runEcosystem_e2e, (C06_tie_groupConstraintsIntoIntervals_no_panic, (C06_tie_groupConstraintsIntoIntervals_tie, (C06_tie_groupConstraintsIntoIntervals_tie_finished, (C06_tie_groupConstraintsIntoIntervals_total, (C06_tie_hex_cli_e2e, (C06_tie_hex_cli_e2e_exit, (C06_tie_hex_lib_ties, (C06_tie_hex_lib_ties_on, (C06_tie_hex_name_ok, (C06_tie_hex_runEcosystem_e2e, (C06_tie_isPyPIPrerelease_tie, (C06_tie_lazy_lib_ties_on, (C06_tie_loops_alpine_compareNumericArraysNumeric_no_panic, (C06_tie_loops_alpine_compareSuffixArrays_no_panic, (C06_tie_loops_alpine_hasLeadingZero_no_panic, (C06_tie_loops_alpm_compareSegmentBySegment_no_panic, (C06_tie_loops_alpm_compareSegments_no_panic, (C06_tie_loops_alpm_isAlphaSegment_no_panic, (C06_tie_loops_cargo_comparePrereleaseIdentifiers_no_panic, (C06_tie_loops_conan_caretMatch_no_panic, (C06_tie_loops_conan_comparePrerelease_no_panic, (C06_tie_loops_conan_compareVersionParts_no_panic, (C06_tie_loops_conan_naturalCompare_no_panic, (C06_tie_loops_conan_tildeMatch_no_panic, (C06_tie_loops_cran_compare_no_panic, (C06_tie_loops_debian_no_panic, (C06_tie_loops_gem_compareSegmentArrays_no_panic, (C06_tie_loops_gem_compare_no_panic, (C06_tie_loops_gem_removeTrailingZeros_no_panic, (C06_tie_loops_gem_split_no_panic, (C06_tie_loops_golang_comparePrerelease_no_panic, (C06_tie_loops_hex_comparePreRelease_no_panic, (C06_tie_loops_maven_trimTrailingNulls_no_panic, (C06_tie_loops_npm_comparePrerelease_no_panic, (C06_tie_loops_nuget_comparePrerelease_no_panic, (C06_tie_loops_pypi_compareReleaseVersions_no_panic, (C06_tie_loops_rpm_compareRPMVersionString_no_panic, (C06_tie_loops_semver_comparePrerelease_no_panic, (C06_tie_mattermost_cli_e2e, (C06_tie_mattermost_cli_e2e_exit, (C06_tie_mattermost_lib_ties, (C06_tie_mattermost_lib_ties_on, (C06_tie_mattermost_name_ok, (C06_tie_mattermost_runEcosystem_e2e, (C06_tie_mavenContains_e2e, (C06_tie_maven_cli_e2e, (C06_tie_maven_cli_e2e_exit, (C06_tie_maven_contains_e2e, (C06_tie_maven_lib_ties, (C06_tie_maven_lib_ties_on, (C06_tie_maven_name_ok, (C06_tie_maven_printer_tie, (C06_tie_maven_runEcosystem_e2e, (C06_tie_newversion_alpm_no_panic, (C06_tie_newversion_apache_no_panic, (C06_tie_newversion_cargo_no_panic, (C06_tie_newversion_conan_no_panic, (C06_tie_newversion_debian_no_panic, (C06_tie_newversion_gem_no_panic, (C06_tie_newversion_gentoo_no_panic, (C06_tie_newversion_github_no_panic, (C06_tie_newversion_hex_no_panic, (C06_tie_newversion_matched, (C06_tie_newversion_mattermost_no_panic, (C06_tie_newversion_maven_no_panic, (C06_tie_newversion_npm_no_panic, (C06_tie_newversion_nuget_no_panic, (C06_tie_newversion_rpm_no_panic, (C06_tie_newversion_semver_no_panic, (C06_tie_newversion_unmatched, (C06_tie_newversionrange_debian_no_panic_closed, (C06_tie_newversionrange_gentoo_no_panic_closed, (C06_tie_newversionrange_npm_no_panic_closed, (C06_tie_newversionrange_nuget_no_panic_closed, (C06_tie_newversionrange_rpm_no_panic_closed, (C06_tie_normalizeConstraints_no_panic, (C06_tie_normalizeConstraints_tie, (C06_tie_normalize_go_tie, (C06_tie_npmContains_e2e, (C06_tie_npm_cli_e2e, (C06_tie_npm_cli_e2e_exit, (C06_tie_npm_compare_sort_e2e, (C06_tie_npm_contains_e2e, (C06_tie_npm_lib_ties, (C06_tie_npm_lib_ties_on, (C06_tie_npm_name_ok, (C06_tie_npm_printer_tie, (C06_tie_npm_runEcosystem_e2e, (C06_tie_npm_version_lib_ties_on, (C06_tie_nugetContains_e2e, (C06_tie_nuget_cli_e2e, (C06_tie_nuget_cli_e2e_exit, (C06_tie_nuget_contains_e2e, (C06_tie_nuget_lib_ties, (C06_tie_nuget_lib_ties_on, (C06_tie_nuget_name_ok, (C06_tie_nuget_printer_tie, (C06_tie_nuget_runEcosystem_e2e, (C06_tie_parseCaretRange_npm_no_panic, (C06_tie_parseConstraint_finished, (C06_tie_parseConstraint_tie, (C06_tie_parseConstraints_finished, (C06_tie_parseConstraints_normalize, (C06_tie_parseConstraints_tie, (C06_tie_parseTildeRange_npm_no_panic, (C06_tie_parse_alpine_newversionrange, (C06_tie_parse_alpine_parseConstraint, (C06_tie_parse_alpine_parseConstraints, (C06_tie_parse_alpm_newversion, (C06_tie_parse_alpm_newversionrange, (C06_tie_parse_alpm_newversionrange_model, (C06_tie_parse_alpm_parseConstraint, (C06_tie_parse_alpm_parseConstraints, (C06_tie_parse_apache_newversion, (C06_tie_parse_apache_newversionrange, (C06_tie_parse_apache_parseConstraint, (C06_tie_parse_apache_parseConstraints, (C06_tie_parse_cargo_newversion, (C06_tie_parse_cargo_newversionrange, (C06_tie_parse_cargo_newversionrange_nv, (C06_tie_parse_cargo_parseConstraint, (C06_tie_parse_cargo_parseConstraints, (C06_tie_parse_composer_newversionrange, (C06_tie_parse_composer_parseHyphenRange, (C06_tie_parse_composer_parseRange, (C06_tie_parse_composer_parseRangeGroups, (C06_tie_parse_composer_space, (C06_tie_parse_conan_newversion, (C06_tie_parse_conan_newversionrange, (C06_tie_parse_cran_newversionrange, (C06_tie_parse_cran_parseConstraint, (C06_tie_parse_cran_parseConstraints, (C06_tie_parse_debian_newversion, (C06_tie_parse_debian_newversionrange, (C06_tie_parse_debian_newversionrange_closed, (C06_tie_parse_debian_parseConstraint, (C06_tie_parse_debian_parseConstraints, (C06_tie_parse_gem_newversion, (C06_tie_parse_gem_newversionrange, (C06_tie_parse_gem_newversionrange_core, (C06_tie_parse_gem_parseConstraint, (C06_tie_parse_gem_parseConstraints, (C06_tie_parse_gem_parseSegments, (C06_tie_parse_gentoo_newversion, (C06_tie_parse_gentoo_newversionrange, (C06_tie_parse_gentoo_newversionrange_closed, (C06_tie_parse_gentoo_parseRange, (C06_tie_parse_gentoo_parseSingleConstraint, (C06_tie_parse_github_newversion, (C06_tie_parse_github_newversionrange, (C06_tie_parse_github_newversionrange_model, (C06_tie_parse_github_parseConstraint, (C06_tie_parse_github_parseConstraints, (C06_tie_parse_golang_newversionrange, (C06_tie_parse_golang_parseGoRange, (C06_tie_parse_golang_parseSingleGoConstraint, (C06_tie_parse_hex_newversionrange, (C06_tie_parse_hex_parseConstraint, (C06_tie_parse_hex_parseConstraints, (C06_tie_parse_mattermost_newversionrange, (C06_tie_parse_mattermost_parseConstraint, (C06_tie_parse_mattermost_parseConstraints, (C06_tie_parse_maven_isValidMavenVersion, (C06_tie_parse_maven_newversion, (C06_tie_parse_maven_newversionrange, (C06_tie_parse_npm_newversion, (C06_tie_parse_npm_padPartial, (C06_tie_parse_npm_parseCaretRange, (C06_tie_parse_npm_parseTildeRange, (C06_tie_parse_nuget_newversion, (C06_tie_parse_pypi_newversionrange, (C06_tie_parse_pypi_parseSingleConstraint, (C06_tie_parse_rpm_newversion, (C06_tie_parse_rpm_newversionrange, (C06_tie_parse_rpm_newversionrange_closed, (C06_tie_parse_rpm_parseConstraint, (C06_tie_parse_rpm_parseConstraints, (C06_tie_parse_semver_comma, (C06_tie_parse_semver_newversion, (C06_tie_parse_semver_newversionrange, (C06_tie_parse_semver_space, (C06_tie_printers_keys, (C06_tie_printers_len, (C06_tie_printers_len', (C06_tie_printers_match_style_table, (C06_tie_printers_on_model_interval, (C06_tie_printers_texts, (C06_tie_printers_texts_normalize, (C06_tie_pypiContains_e2e, (C06_tie_pypiContains_tie, (C06_tie_pypi_cli_e2e, (C06_tie_pypi_cli_e2e_exit, (C06_tie_pypi_contains_e2e, (C06_tie_pypi_lib_ties, (C06_tie_pypi_lib_ties_on, (C06_tie_pypi_name_ok, (C06_tie_pypi_printer_tie, (C06_tie_pypi_runEcosystem_e2e, (C06_tie_rpmContains_e2e, (C06_tie_rpm_cli_e2e, (C06_tie_rpm_cli_e2e_exit, (C06_tie_rpm_contains_e2e, (C06_tie_rpm_lib_ties, (C06_tie_rpm_lib_ties_on, (C06_tie_rpm_name_ok, (C06_tie_rpm_printer_tie, (C06_tie_rpm_runEcosystem_e2e, (C06_tie_runEcosystem_no_panic, (C06_tie_runVers_no_panic, (C06_tie_run_no_panic, (C06_tie_run_src_no_panic, (C06_tie_scheme_finished, (C06_tie_scheme_tie, (C06_tie_semverContains_e2e, (C06_tie_semver_cli_e2e, (C06_tie_semver_cli_e2e_exit, (C06_tie_semver_compare_sort_e2e, (C06_tie_semver_contains_e2e, (C06_tie_semver_lib_ties, (C06_tie_semver_lib_ties_on, (C06_tie_semver_name_ok, (C06_tie_semver_printer_tie, (C06_tie_semver_runEcosystem_e2e, (C06_tie_semver_version_lib_ties_on, (C06_tie_shouldMergeConstraints_tie, (C06_tie_sort_no_panic, (C06_tie_toRanges_no_panic, (C06_tie_toRanges_normalize, (C06_tie_toRanges_tie, (C06_tie_valid_finished, (C06_tie_valid_tie, (C06_tie_versContains_no_panic, (C06_tie_vers_alpine_e2e, (C06_tie_vers_cargo_e2e, (C06_tie_vers_deb_e2e, (C06_tie_vers_gem_e2e, (C06_tie_vers_generic_e2e, (C06_tie_vers_golang_e2e, (C06_tie_vers_maven_e2e, (C06_tie_vers_npm_e2e, (C06_tie_vers_nuget_e2e, (C06_tie_vers_pypi_e2e, C06_tie_vers_rpm_e2e))))))))))))))))))))))))))))))))))))))))))))))))))))))))))))))))))))))))))))))))))))))))))))))))))))))))))))))))))))))))))))))))))))))))))))))))))))))))))))))))))))))))))))))))))))))))))))))))))))))))))))))))))))))))))))))))))))))))))))))))))))))))))))))))))))))))))))))))))))))))))))))))))))))))))))))))))))))))))))))))))))))))))))))))))))))))))))).
 Print Assumptions C06_ties_all.
 (* ====== ties to the source: END ====== *)
